@@ -57,11 +57,19 @@ func bases() []base {
 	return out
 }
 
-func values(imgLen, off int, width int) []uint64 {
+func values(imgLen, off int, width int, cur uint64) []uint64 {
 	l := uint64(imgLen)
+	// For 32-bit fields the menu also holds the values that alias the current one after a 32-bit
+	// multiplication by a record size (12-byte SEV sections: current + k*2^30; 32-byte TDVF
+	// sections: current + k*2^27).
 	v := []uint64{0, 1, 15, 16, 17, 21, 22, 23, 0x1000, l - 1, l, l + 1, l - uint64(off), 0x7fffffff, 0x80000000, 0xfffffff0, 0xffffffff, 357913942, 357913941, 134217728, 134217727}
 	if width == 2 {
 		return []uint64{0, 1, 17, 18, 19, 22, 0x7fff, 0x8000, 0xfffe, 0xffff, l & 0xffff}
+	}
+	if width == 4 {
+		for _, k := range []uint64{1, 2, 4, 8, 16, 24} {
+			v = append(v, (cur+k<<27)&0xffffffff)
+		}
 	}
 	if width == 8 {
 		v = append(v, 1<<32, 1<<32+0x1000, 1<<40, 1<<56, 1<<63, 1<<63+0x1000, ^uint64(0), ^uint64(0)&^0xfff, 1<<26, 1<<30)
@@ -98,7 +106,16 @@ func deviations(tier string) []dev {
 					if off+w > len(b.img) {
 						continue
 					}
-					for _, v := range values(len(b.img), off, w) {
+					var cur uint64
+					switch w {
+					case 2:
+						cur = uint64(binary.LittleEndian.Uint16(b.img[off:]))
+					case 4:
+						cur = uint64(binary.LittleEndian.Uint32(b.img[off:]))
+					default:
+						cur = binary.LittleEndian.Uint64(b.img[off:])
+					}
+					for _, v := range values(len(b.img), off, w, cur) {
 						off, w, v := off, w, v
 						out = append(out, dev{bi, fmt.Sprintf("%s %s u%d@%#x=%#x", b.name, rg.name, w*8, off, v), func(img []byte) []byte {
 							c := append([]byte(nil), img...)
@@ -106,6 +123,28 @@ func deviations(tier string) []dev {
 							return c
 						}})
 					}
+				}
+			}
+		}
+		// pairs (length, count) of the two metadata headers: full product of the 32-bit menus, so a
+		// count that wraps the size computation can meet the length it then aliases
+		for _, h := range []struct {
+			name           string
+			lenOff, cntOff int
+		}{{"sev-header", b.regions[1].from + 4, b.regions[1].from + 12}, {"tdvf-header", b.regions[2].from + 16 + 4, b.regions[2].from + 16 + 12}} {
+			h := h
+			curLen := uint64(binary.LittleEndian.Uint32(b.img[h.lenOff:]))
+			curCnt := uint64(binary.LittleEndian.Uint32(b.img[h.cntOff:]))
+			lens := append(values(len(b.img), h.lenOff, 4, curLen), 24, 28, 40, 48, 52, 64)
+			for _, lv := range lens {
+				for _, cv := range values(len(b.img), h.cntOff, 4, curCnt) {
+					lv, cv := lv, cv
+					out = append(out, dev{bi, fmt.Sprintf("%s %s length=%#x count=%#x", b.name, h.name, lv, cv), func(img []byte) []byte {
+						c := append([]byte(nil), img...)
+						put(c, h.lenOff, 4, lv)
+						put(c, h.cntOff, 4, cv)
+						return c
+					}})
 				}
 			}
 		}
